@@ -359,43 +359,7 @@ def collect_syms(st, with_wfacts=True):
 
 
 def insert_token_at(st, back):
-    """Ensure a token exists exactly `back` bytes behind the cursor; returns it or None when the
-    position falls into an inexact gap."""
-    if back == 0:
-        return st.cur_tok()
-    # walk the chain from the cursor backwards
-    dist = st.cur_gap
-    if not dist[1] and back > 0:
-        return None
-    if back < dist[0] or (back == dist[0] and False):
-        # split cur_gap: new token between chain[-1] and cursor
-        st.ntok += 1
-        t = "T%d" % st.ntok
-        st.chain.append(t)
-        st.gaps.append((dist[0] - back, True))
-        st.cur_gap = (back, True)
-        return t
-    acc = dist[0]
-    i = len(st.chain) - 1
-    while True:
-        if acc == back:
-            return st.chain[i]
-        if i == 0:
-            return None
-        g = st.gaps[i - 1]
-        if not g[1]:
-            return None
-        if acc + g[0] > back:
-            # split gap i-1 between chain[i-1] and chain[i]
-            st.ntok += 1
-            t = "T%d" % st.ntok
-            d_after = back - acc  # distance from new token to chain[i]
-            st.chain.insert(i, t)
-            st.gaps[i - 1] = (g[0] - d_after, True)
-            st.gaps.insert(i, (d_after, True))
-            return t
-        acc += g[0]
-        i -= 1
+    return st.token_at(back)
 
 
 def round_bounds(lo, hi):
